@@ -37,6 +37,7 @@ class File:
 
     def __init__(self, rel, pattern, stealth=False, kind="plain"):
         self.rel = rel
+        self.name0 = rel  # the content is derived from the first name, so a rename step keeps the bytes
         self.pattern = pattern
         self.stealth = stealth  # edits keep size and mtime
         self.kind = kind  # plain | empty | big<N> | link
@@ -46,9 +47,9 @@ class File:
             return b"" if v == "A" else v.encode()
         if self.kind.startswith("big"):
             n = int(self.kind[3:])
-            body = (self.rel.encode("utf8") + b"|") * (n // (len(self.rel.encode("utf8")) + 1) + 1)
+            body = (self.name0.encode("utf8") + b"|") * (n // (len(self.name0.encode("utf8")) + 1) + 1)
             return body[: n - 1] + v.encode()
-        return (self.rel + "|" + v).encode("utf8")
+        return (self.name0 + "|" + v).encode("utf8")
 
 
 def apply_edits(root, files, k):
@@ -383,6 +384,13 @@ def play(run, sc):
     for k, st in enumerate(sc.steps[: last + 1]):
         cid = cids[k]
         pats = pats + list(st.get("add_patterns", []))
+        for old_rel, new_rel in st.get("rename", ()):
+            # a rename / move between two runs (content and mtime kept); the step's command carries -dr
+            os.makedirs(os.path.dirname(os.path.join(root, new_rel)), exist_ok=True)
+            os.rename(os.path.join(root, old_rel), os.path.join(root, new_rel))
+            for f in sc.files:
+                if f.rel == old_rel:
+                    f.rel = new_rel
         if run.want(cid):
             run.case(cid, (sc.name, k), sample={"case": cid, "formats": st["fmts"], "mode": st["mode"], "target": st.get("target", "")})
         step(run, cid, root, sc.files, k, st["fmts"], st["mode"], target=st.get("target", ""), patterns=pats, check=run.want(cid), extra=st.get("extra", ()), tz=st.get("tz"))
@@ -437,6 +445,30 @@ def scenarios(run, seed, thorough):
                     mode = ["abs", "sfall", "rel", "sfhalf", "dot", "n", "sfdir", "slash"][(k + li + rep) % 8]
                 steps.append({"fmts": seq[k], "mode": mode, "target": t})
             out.append(Scenario(name, files, steps))
+    # ---- renames between generations, sealed with -dr, followed by plain generations with the renamed file kept / altered:
+    # the record under the new path starts a path of its own (first generation that records it: 'original'), every later
+    # generation judges it against that first record, and an alteration after the rename is a failed check (exit 11)
+    for rep in range(4 if thorough else 2):
+        n = 5
+        name = f"{P}rename/{rep}"
+        rnd = random.Random(name)
+        files = [
+            File("a.bin", "AAAAA"),
+            File("d/moved.bin", "AAAAB" if rep % 2 == 0 else "AAABA", stealth=(rep >= 2)),
+            File("d/renamed_kept.bin", "AAAAA"),
+            File("e/late.bin", "-AAAB"),
+        ]
+        seq = rsets(rnd, n) if rep else [["md5"], ["md5"], ["md5", "sha1"], ["sha1"], ["md5"]]
+        steps = [{"fmts": seq[k], "mode": "abs"} for k in range(n)]
+        steps[1]["rename"] = [("d/moved.bin", "d2/moved_away.bin"), ("d/renamed_kept.bin", "d/renamed_kept_v2.bin")]
+        steps[1]["extra"] = ("-dr",)
+        # the rename generation must check the format of the old record for the match to be by recorded digest
+        steps[1]["fmts"] = sorted(set(seq[0]) | set(seq[1]), key=ALLF.index)
+        if rep % 2 == 1:
+            steps[2]["rename"] = [("e/late.bin", "e/late_renamed.bin")]
+            steps[2]["extra"] = ("-dr",)
+            steps[2]["fmts"] = sorted(set(steps[1]["fmts"]) | set(seq[2]), key=ALLF.index)
+        out.append(Scenario(name, files, steps))
     # ---- unusual names, empty file, files around 1 MiB, a symbolic link
     for rep in range(3 if thorough else 1):
         n = 5
